@@ -441,10 +441,9 @@ pub fn check_query(
     st: &MState,
     tip: Option<(u64, H32)>,
     probes: &mut Counters,
-    dom: crate::Domains,
 ) -> Result<String, Fail> {
     if handle.is_rich() {
-        return crate::oracle_rich::check_query_rich(handle, q, st, tip, probes, dom);
+        return crate::oracle_rich::check_query_rich(handle, q, st, tip, probes);
     }
     let api_name = match q.api.as_str() {
         "cells" => "get_cells",
